@@ -91,12 +91,13 @@ func hasLargeNumber(src []byte) bool {
 }
 
 type c06Target struct {
-	Name string
-	A    int
-	F    float64
-	S    string
-	B    bool
-	X    any
+	secret int `bcl:"secret"`
+	Name   string
+	A      int
+	F      float64
+	S      string
+	B      bool
+	X      any
 }
 
 // c06Run pushes one input through every entry point. hint: expectation class
@@ -387,13 +388,20 @@ func c06FixedList() []c06Fixed {
 	for _, s := range []string{`"abc`, "\"abc\n", `"abc\`, "\"abc\\\n", `"`, `"\`, `print "abc`, "print \"abc\nprint 1", `print "a\`, "def b \"x", "def b \"x\n{}"} {
 		add("literal_unterminated_string", "err", s)
 	}
+	// (7) programs that reach the struct binding layer of Unmarshal / UnmarshalFile
+	for _, body := range []string{"a = 1", "secret = 1", "x = nil", "f = 1", "name = 1", "s = \"x\"; b = true; f = 2.5; a = 3", "def x { y = 1 }", "x = \"s\"", "zz = 1"} {
+		for _, bnd := range []string{"-> struct", "-> slice", ":all -> slice", ":last -> struct"} {
+			add("unmarshal_directed", "", "def c06_target \"n\" { "+body+" }\nbind c06_target"+bnd)
+		}
+	}
 	// (6) out-of-domain operands
 	for _, cnt := range []string{"(0-1)", "(0-2)", "(0-9223372036854775807)", "(0-9223372036854775807-1)", "0", "1", "1000", "524288", "1048576"} {
 		add("domain_repeat_count", "", `print "ab" * `+cnt+` == ""`)
 		add("domain_repeat_count", "", `var n = `+cnt+` def b { f = "x" * n }`)
 	}
-	for _, cnt := range []string{"9223372036854775807", "4611686018427387904", "(0-1)"} {
+	for _, cnt := range []string{"9223372036854775807", "4611686018427387904", "(0-1)", "(0-9223372036854775807-1)", "(0-2)"} {
 		add("domain_repeat_count", "", `print "" * `+cnt)
+		add("domain_repeat_count", "", `var e = "" var n = `+cnt+` def b { f = e * n }`)
 	}
 	blkOps := []string{"c == c", "c != c", "c == 1", "1 == c", "c < c", "c + 1", `"s" + c`, `"s" * c`, "c * 2", "- c", "+ c", "not c", "c and 1", "c or 1", "1 and c", "c / c", "c >= 1", "c == nil", `c == "s"`}
 	for _, e := range blkOps {
